@@ -40,7 +40,9 @@ import (
 	"context"
 	"errors"
 	"fmt"
+	"os"
 	"sort"
+	"strconv"
 	"strings"
 	"testing"
 	"time"
@@ -630,12 +632,19 @@ func TestVerifC47(t *testing.T) {
 		cfgs = append(cfgs, c47Cfg{name: "t100-min2-3x1s-open1500ms-hom2", num: 1, den: 1, minReq: 2, buckets: 3, bucketDur: time.Second, openTimeout: 1500 * time.Millisecond, hom: 2})
 	}
 	depth := vsched.Pick(9, 12)
-	for _, cfg := range cfgs {
+	start, budget := time.Now(), 3600.0
+	if f, err := strconv.ParseFloat(os.Getenv("VERIF_BUDGET_S"), 64); err == nil && f > 0 {
+		budget = f
+	}
+	for i, cfg := range cfgs {
 		cfg := cfg
+		// equal shares of 80% of the wall budget for the history scenarios (the rest is for the
+		// burst scenarios); a deadline only lowers coverage (exhaustive=false), never a verdict
+		dl := start.Add(time.Duration(0.8 * budget * float64(i+1) / float64(len(cfgs)) * float64(time.Second)))
 		alpha := c47Alphabet(cfg)
 		p := cfg.params()
 		p["alphabet"] = fmt.Sprint(alpha)
-		vsched.BFS(vsched.BFSConfig{Scenario: "hist-" + cfg.name, Depth: depth, ShardFirstOp: true, Params: p},
+		vsched.BFS(vsched.BFSConfig{Scenario: "hist-" + cfg.name, Depth: depth, ShardFirstOp: true, Deadline: dl, Params: p},
 			func([]c47Op) []c47Op { return alpha }, c47Exec(cfg), func(o c47Op) string { return o.String() })
 	}
 
